@@ -1471,9 +1471,18 @@ def rule_serde_checked_decoders(ctx, cfg='prod-all'):
                 if g.dom is not True:
                     continue
                 w = g.what or ''
-                if g.kind == 'call' and (w.endswith('::is_identity') or w.endswith('::is_zero')):
+                # what the test says about the value (about *every* element, for a test under a quantifier) on the way to the success return:
+                # `any(P)` that came out false and `all(P)` that came out true speak for each element; `all(P)` false says one element fails P
+                tv = g.truth
+                if g.quant:
+                    q = g.quant.split('::')[-1]
+                    tv = g.truth if (q == 'any' and g.truth is False) or (q == 'all' and g.truth is True) else None
+                names_refused = any(str(a[1]).split('::')[-1] in ('IDENTITY', 'ZERO') for a in g.all_atoms() if a[0] in ('a', 'c'))
+                if g.kind == 'call' and (w.endswith('::is_identity') or w.endswith('::is_zero')) and tv is False:
                     hit = True
-                if g.kind == 'call' and 'PartialEq' in w and any(str(a[1]).split('::')[-1] in ('IDENTITY', 'ZERO') for a in g.all_atoms() if a[0] in ('a', 'c')):
+                if g.kind == 'call' and 'PartialEq' in w and names_refused and ((w.endswith('::eq') and tv is False) or (w.endswith('::ne') and tv is True)):
+                    hit = True
+                if g.kind == 'cmp' and names_refused and ((w == 'Eq' and tv is False) or (w == 'Ne' and tv is True)):
                     hit = True
                 # `list.contains(&ZERO)` came out false: no element is the refused value
                 if g.kind == 'call' and w.endswith('<impl [T]>::contains') and g.truth is False \
